@@ -257,6 +257,10 @@ theorem trust_store_only_configured : verifyCertStore = [
       `HMAC(HKDF-Expand-Label(BaseKey, "finished", "", Hash.length), Transcript-Hash)` where BaseKey
       is the READ traffic secret (`_dec_key`), on both roles; the server's expected value is the one
       computed by `_server_expect_finished`;
+    * the refusal test is Python's `!=` on the two byte strings (entries `*.refuse_if`): exact
+      equality, LENGTH INCLUDED — a shortened or lengthened `verify_data` / binder is refused like an
+      altered one.  Any other comparison (a helper call, a prefix or constant-time loop without a length
+      check) is not recognised as VerifyFinished / VerifyBinder by the extractor and breaks the tie;
     * `_dec_key` / `_enc_key` are only written by `_setup_traffic_protection` (the secret it just
       derived for the given direction) and, after the respective Finished, by the 1-RTT commit — so
       with `order_matches_rfc` the BaseKey at the Finished checks is the peer's handshake traffic
@@ -269,8 +273,12 @@ theorem auth_values_are_rfc : authFlow = [
       ("sig.params", "*signature_algorithm_params(verify.algorithm)"),
       ("finished._client_handle_finished.received", "finished.verify_data"),
       ("finished._client_handle_finished.expected", "self.key_schedule.finished_verify_data(self._dec_key)"),
+      ("finished._client_handle_finished.refuse_if", "finished.verify_data != expected_verify_data"),
+      ("binder._server_handle_hello.expected", "self.key_schedule.finished_verify_data(binder_key)"),
+      ("binder._server_handle_hello.refuse_if", "binder != expected_binder"),
       ("finished._server_handle_finished.received", "finished.verify_data"),
       ("finished._server_handle_finished.expected", "self.key_schedule.finished_verify_data(self._dec_key)"),
+      ("finished._server_handle_finished.refuse_if", "finished.verify_data != self._expected_verify_data"),
       ("KeySchedule.certificate_verify_data", "return b' ' * 64 + context_string + b'\\x00' + self.hash.copy().finalize()"),
       ("KeySchedule.finished_verify_data", "hmac_key = hkdf_expand_label(algorithm=self.algorithm, secret=secret, label=b'finished', hash_value=b'', length=self.algorithm.digest_size); h = hmac.HMAC(hmac_key, algorithm=self.algorithm); h.update(self.hash.copy().finalize()); return h.finalize()"),
       ("KeySchedule.derive_secret", "return hkdf_expand_label(algorithm=self.algorithm, secret=self.secret, label=label, hash_value=self.hash.copy().finalize(), length=self.algorithm.digest_size)"),
@@ -387,8 +395,17 @@ theorem byte_flip_blocks_partial (P : Prims Msg H K Tag) (r s : View Msg K Tag)
   rw [this] at h2
   exact hne h2.symm
 
-/-- ... and a flipped Finished itself: a verify_data different from the one the
-    peer sent is never accepted -/
+/-- ... and an altered Finished itself: a verify_data different from the one the
+    peer sent is never accepted.  `Tag` and `Msg` are terms, not fixed-length
+    strings: a SHORTENED or lengthened verify_data (resp. message) is simply a
+    different term, so this theorem and `byte_flip_blocks_partial` quantify over
+    length-changing alterations as well (`m'` / `r.received` are arbitrary).  What
+    the symbolic model cannot see is an implementation whose acceptance test is not
+    equality of the two values (e.g. a comparison over the common prefix): that is a
+    failure of the refinement `View.accepts` ↔ tls.py, guarded by the extraction —
+    only `a != b` followed by `raise` is recognised as VerifyFinished / VerifyBinder
+    (`auth_values_are_rfc`, entries `*.refuse_if`); anything else breaks the tie —
+    and by the truncation family of checks/c03.py on the real objects. -/
 theorem finished_flip_blocks (P : Prims Msg H K Tag) (r s : View Msg K Tag)
     (hu : Unforgeable P r s) (hne : r.received ≠ s.sent) : ¬ r.accepts P := by
   intro ha
